@@ -160,22 +160,22 @@ func (c *Ctx) Finish(evDir string, known []KnownFinding, t0 time.Time, extra map
 		rules[o.Rule]++
 	}
 	cov := map[string]any{
-		"obligations":         len(c.Obs),
-		"discharged":          discharged,
-		"known_findings":      knownHits,
-		"explanation":         propExplain[c.Prop],
-		"rule":                "one obligation per rule instance (rule id + function + construct), recomputed from /repo's working tree on this run",
-		"rules":               rules,
-		"samples":             samples,
-		"functions_analysed":  funcs,
-		"packages_loaded":     len(c.P.Pkgs),
-		"ssa_functions":       len(c.P.AllFuncs),
-		"build_tags":          c.P.Tags,
-		"unresolved_anchors":  c.Unres,
-		"notes":               c.Notes,
-		"checker_cmd":         strings.Join(os.Args, " "),
-		"trusted_base":        []string{"go/types", "golang.org/x/tools/go/ssa v0.29.0", "golang.org/x/tools/go/packages", "rule tables in /verif/checker/cmd/pebblevet/rules_*.go"},
-		"load_s":              c.P.LoadS,
+		"obligations":        len(c.Obs),
+		"discharged":         discharged,
+		"known_findings":     knownHits,
+		"explanation":        propExplain[c.Prop],
+		"rule":               "one obligation per rule instance (rule id + function + construct), recomputed from /repo's working tree on this run",
+		"rules":              rules,
+		"samples":            samples,
+		"functions_analysed": funcs,
+		"packages_loaded":    len(c.P.Pkgs),
+		"ssa_functions":      len(c.P.AllFuncs),
+		"build_tags":         c.P.Tags,
+		"unresolved_anchors": c.Unres,
+		"notes":              c.Notes,
+		"checker_cmd":        strings.Join(os.Args, " "),
+		"trusted_base":       []string{"go/types", "golang.org/x/tools/go/ssa v0.29.0", "golang.org/x/tools/go/packages", "rule tables in /verif/checker/cmd/pebblevet/rules_*.go"},
+		"load_s":             c.P.LoadS,
 	}
 	for k, v := range extra {
 		cov[k] = v
